@@ -11,7 +11,7 @@ def check(ctx):
         "edge; R3 the converted window is spans[sent .. sent + batch_size] with batch_size = min(spans_per_batch, len - "
         "sent), the post-send increment is that same batch_size, and the skip increment is the constant 1 on the "
         "batch_size <= 1, over-limit edge; R4 the loop leaves only on !(sent_spans < len) or through `?`; R5 report() hands try_report "
-        "the batch it received and neither applies a selecting operation (retain / dedup / truncate / drain / filter / take) to it.")
+        "the batch it received and applies no selecting operation (retain / dedup / truncate / drain / filter / take) to it.")
     ctx.not_decided = ("termination and the exactly-once / in-order claim as arithmetic facts over all size distributions "
                        "(R2-R3 are the per-iteration conditions a ranking argument needs; the argument itself is not "
                        "mechanised); that batch_size >= 1 whenever the loop condition holds.")
@@ -25,6 +25,6 @@ def check(ctx):
     rep = [g for p, g in facts.fns.items() if g.crate == "fastrace_jaeger" and p.endswith("Reporter>::report")]
     tr = facts.fn("fastrace_jaeger::JaegerReporter::try_report")
     if rep and tr is not None:
-        reporters.whole_batch(ctx, Prov(facts), "R5", rep[0], tr, "JaegerReporter")
+        reporters.whole_batch(ctx, Prov(facts), "R5", rep[0], tr, "JaegerReporter", only=("report",))
     else:
         ctx.fail("R5", "fastrace_jaeger::JaegerReporter", "-", "report() and try_report() exist", "anchor lost", extra="whole-anchor")
